@@ -35,7 +35,7 @@ Definition ex_g : graph :=
   [(IRI 10, t_rdf_type, IRI 21); (IRI 21, t_subClassOf, IRI 20); (IRI 20, t_subClassOf, IRI 21);
    (IRI 11, IRI 50, LIT 1 0 0)].
 Definition ex_s : shape :=
-  {| sid := IRI 30; spath := None; deact := false; ssev := t_Violation;
+  {| sid := IRI 30; spath := None; deact := false; ssev := t_Violation; smsgs := [];
      stargets := {| t_nodes := [IRI 99]; t_classes := [IRI 20]; t_implicit := false;
                     t_subjects_of := []; t_objects_of := [IRI 50] |};
      scomps := [] |}.
